@@ -585,14 +585,21 @@ func ruleStreamLength(c *core.Ctx) {
 			if !core.Mentions(info, as.Rhs[0], declared) || core.ObjOf(info, as.Lhs[0]) == declared {
 				continue
 			}
+			if _, isProbe := core.IsCallTo(info, as.Rhs[0], "pdf.endstreamAt"); isProbe {
+				continue // the verification itself
+			}
 			n++
 			o.At(fn.Site(as, "extent := declared"))
 			ok2 := g.GuardedBy(v, func(a core.Atom) bool {
-				call, ok := a.HoldsCall(info, false, "pdf.endstreamAt")
-				if !ok {
+				if call, ok := a.HoldsCall(info, false, "pdf.endstreamAt"); ok {
+					return core.Mentions(info, call.Args[1], declared)
+				}
+				// or a boolean that is only ever false or the result of endstreamAt(start+declared)
+				id, ok := ast.Unparen(a.Expr).(*ast.Ident)
+				if !ok || a.Neg || a.Tag != nil {
 					return false
 				}
-				return core.Mentions(info, call.Args[1], declared)
+				return isEndstreamFlag(fn, info.ObjectOf(id), declared)
 			})
 			if !ok2 {
 				o.FailAt(fn.Site(as, ""), "declared length is trusted without endstreamAt(start+declared)")
@@ -614,6 +621,9 @@ func ruleStreamLength(c *core.Ctx) {
 		}
 		// the Find must be on the edge where endstreamAt failed or no length declared
 		ok := g.GuardedBy(find[0].V, func(a core.Atom) bool {
+			if id, isID := ast.Unparen(a.Expr).(*ast.Ident); isID && a.Neg && a.Tag == nil {
+				return isEndstreamFlag(fn, info.ObjectOf(id), localVar(fn, "declared", 0))
+			}
 			// negation of a conjunction: recorded as compound atom with Neg
 			found := false
 			ast.Inspect(a.Expr, func(n ast.Node) bool {
@@ -1054,4 +1064,29 @@ func ruleObjStmLookup(c *core.Ctx) {
 		})
 		o.Require(found, "member offsets are not rebased by /First")
 	})
+}
+
+// isEndstreamFlag: obj is a boolean whose definitions are the constant false
+// and the result of endstreamAt(..., start+declared).
+func isEndstreamFlag(fn *core.Func, obj types.Object, declared types.Object) bool {
+	if obj == nil {
+		return false
+	}
+	info := fn.Info()
+	fromCall := false
+	for _, d := range core.AssignsTo(info, fn.Decl, obj) {
+		as, ok := d.(*ast.AssignStmt)
+		if !ok || len(as.Rhs) != 1 {
+			return false
+		}
+		if cv := core.ConstOf(info, as.Rhs[0]); cv != nil && cv.String() == "false" {
+			continue
+		}
+		call, ok := as.Rhs[0].(*ast.CallExpr)
+		if !ok || core.CalleeKey(info, call) != "pdf.endstreamAt" || !core.Mentions(info, call.Args[1], declared) {
+			return false
+		}
+		fromCall = true
+	}
+	return fromCall
 }
